@@ -1,6 +1,7 @@
 package main
 
 import (
+	"fmt"
 	"go/ast"
 	"go/parser"
 	"go/token"
@@ -315,16 +316,23 @@ func runC17(c *Config, r *Report) {
 	// The file-name rule goes through matchTag too in the reference (goodOSArchFile), so the
 	// implied OS tags apply to suffixes as well.
 	{
-		nlits := map[string]bool{}
-		for _, fi := range ic.G.reachedDecls(skipReach) {
-			for s := range stringLits(fi.Decl.Body) {
-				nlits[s] = true
-			}
-		}
 		ndeleg := reachesExternal(ic, skipReach, "go/build.Context.MatchFile")
+		claimed, undecided := impliedPairs(ic, ic.G.reachedDecls(skipReach))
+		pos := ic.pos(ic.G.Funcs[skipFn].Decl.Pos())
+		for _, u := range undecided {
+			r.Fail("R17.2", "name-rule/implied/undecided", pos, "undecided: "+u)
+		}
+		refSet := map[string]bool{}
 		for _, im := range ref.implied {
-			r.Check(ndeleg || (nlits[im[0]] && nlits[im[1]]), "R17.2", "name-rule/implied/"+im[0]+"=>"+im[1], ic.pos(ic.G.Funcs[skipFn].Decl.Pos()), "implied tag handled by the file-name rule",
+			refSet[im[0]+"=>"+im[1]] = true
+			r.Check(ndeleg || claimed[im[0]+"=>"+im[1]], "R17.2", "name-rule/implied/"+im[0]+"=>"+im[1], pos, "implied tag handled by the file-name rule",
 				"go/build selects x_"+im[1]+".go when GOOS="+im[0]+" (goodOSArchFile -> matchTag); the file-name rule "+skipFn.Name()+" has no such condition and skips it")
+		}
+		for _, p := range sortedKeys(claimed) {
+			if !refSet[p] {
+				parts := strings.SplitN(p, "=>", 2)
+				r.Fail("R17.2", "name-rule/implied/"+p, pos, "the file-name rule treats files named for "+parts[1]+" as selected when GOOS="+parts[0]+"; go/build has no such rule (its implied tags are "+fmt.Sprint(ref.implied)+"): files are selected that the Go toolchain excludes")
+			}
 		}
 	}
 
@@ -369,9 +377,23 @@ func runC17(c *Config, r *Report) {
 	uses := func(s string) bool { _, ok := lits[s]; return ok }
 	r.Check(delegated || uses("unix"), "R17.2", "tag/unix", evPos, "the unix tag is handled",
 		"go/build satisfies the tag \"unix\" when GOOS is in unixOS; no function reachable from "+okFn.Name()+" mentions it: a file constrained by 'unix' is skipped on "+strings.Join(sortedKeys(ref.unixOS), ","))
-	for _, im := range ref.implied {
-		r.Check(delegated || (uses(im[0]) && uses(im[1])), "R17.2", "implied/"+im[0]+"=>"+im[1], evPos, "implied tag handled",
-			"go/build satisfies tag "+im[1]+" when GOOS="+im[0]+"; the constraint evaluator has no such condition")
+	{
+		claimed, undecided := impliedPairs(ic, decls)
+		for _, u := range undecided {
+			r.Fail("R17.2", "implied/undecided", evPos, "undecided: "+u)
+		}
+		refSet := map[string]bool{}
+		for _, im := range ref.implied {
+			refSet[im[0]+"=>"+im[1]] = true
+			r.Check(delegated || claimed[im[0]+"=>"+im[1]], "R17.2", "implied/"+im[0]+"=>"+im[1], evPos, "implied tag handled",
+				"go/build satisfies tag "+im[1]+" when GOOS="+im[0]+"; the constraint evaluator has no such condition")
+		}
+		for _, p := range sortedKeys(claimed) {
+			if !refSet[p] {
+				parts := strings.SplitN(p, "=>", 2)
+				r.Fail("R17.2", "implied/"+p, evPos, "the constraint evaluator satisfies tag "+parts[1]+" when GOOS="+parts[0]+"; go/build has no such rule")
+			}
+		}
 	}
 
 	// R17.3
@@ -606,4 +628,151 @@ func selFieldNode(info *types.Info, n ast.Node) *types.Var {
 		return selField(info, e)
 	}
 	return nil
+}
+
+// impliedPairs extracts the "GOOS=a implies tag b" rules implemented by decls, from
+// conditions of the form ctx.GOOS == "a" && t == "b" and from string->string tables
+// indexed by (or compared with) the context's GOOS. Pairs are rendered "a=>b".
+func impliedPairs(ic *IC, decls []*FuncInfo) (claimed map[string]bool, undecided []string) {
+	claimed = map[string]bool{}
+	isGOOS := func(e ast.Expr) bool {
+		v := selField(ic.Info, e)
+		return v != nil && v.Name() == "GOOS" && v.Pkg() != nil && v.Pkg().Path() == "go/build"
+	}
+	strLit := func(e ast.Expr) (string, bool) {
+		if bl, ok := unparen(e).(*ast.BasicLit); ok && bl.Kind == token.STRING {
+			return strings.Trim(bl.Value, "\"`"), true
+		}
+		return "", false
+	}
+	// string->string tables of the package
+	tables := map[*types.Var]map[string]string{}
+	for _, f := range ic.Pk.Syntax {
+		for _, d := range f.Decls {
+			gd, ok := d.(*ast.GenDecl)
+			if !ok || gd.Tok != token.VAR {
+				continue
+			}
+			for _, sp := range gd.Specs {
+				vs := sp.(*ast.ValueSpec)
+				for i, nm := range vs.Names {
+					if i >= len(vs.Values) {
+						continue
+					}
+					cl, ok := vs.Values[i].(*ast.CompositeLit)
+					if !ok {
+						continue
+					}
+					v, _ := ic.Info.Defs[nm].(*types.Var)
+					if v == nil {
+						continue
+					}
+					m, ok := v.Type().Underlying().(*types.Map)
+					if !ok || !types.Identical(m.Key(), types.Typ[types.String]) || !types.Identical(m.Elem(), types.Typ[types.String]) {
+						continue
+					}
+					ent := map[string]string{}
+					for _, e := range cl.Elts {
+						if kv, ok := e.(*ast.KeyValueExpr); ok {
+							k, ok1 := strLit(kv.Key)
+							val, ok2 := strLit(kv.Value)
+							if ok1 && ok2 {
+								ent[k] = val
+							}
+						}
+					}
+					tables[v] = ent
+				}
+			}
+		}
+	}
+	tableOf := func(e ast.Expr) (*types.Var, ast.Expr) {
+		ix, ok := unparen(e).(*ast.IndexExpr)
+		if !ok {
+			return nil, nil
+		}
+		id, ok := unparen(ix.X).(*ast.Ident)
+		if !ok {
+			return nil, nil
+		}
+		if v, ok := ic.Info.Uses[id].(*types.Var); ok && tables[v] != nil {
+			return v, ix.Index
+		}
+		return nil, nil
+	}
+	for _, fi := range decls {
+		handled := map[ast.Expr]bool{}
+		ast.Inspect(fi.Decl.Body, func(n ast.Node) bool {
+			be, ok := n.(*ast.BinaryExpr)
+			if !ok {
+				return true
+			}
+			switch be.Op {
+			case token.LAND:
+				side := func(e ast.Expr) (lit string, goos bool, ok bool) {
+					b, isB := unparen(e).(*ast.BinaryExpr)
+					if !isB || b.Op != token.EQL {
+						return "", false, false
+					}
+					if l, ok := strLit(b.Y); ok {
+						return l, isGOOS(b.X), true
+					}
+					if l, ok := strLit(b.X); ok {
+						return l, isGOOS(b.Y), true
+					}
+					return "", false, false
+				}
+				l1, g1, ok1 := side(be.X)
+				l2, g2, ok2 := side(be.Y)
+				if ok1 && ok2 && g1 != g2 {
+					if g1 {
+						claimed[l1+"=>"+l2] = true
+					} else {
+						claimed[l2+"=>"+l1] = true
+					}
+				}
+			case token.EQL:
+				for _, pair := range [][2]ast.Expr{{be.X, be.Y}, {be.Y, be.X}} {
+					tv, idx := tableOf(pair[0])
+					if tv == nil {
+						continue
+					}
+					handled[unparen(pair[0])] = true
+					switch {
+					case isGOOS(idx):
+						for k, v := range tables[tv] {
+							claimed[k+"=>"+v] = true
+						}
+					case isGOOS(pair[1]):
+						for k, v := range tables[tv] {
+							claimed[v+"=>"+k] = true
+						}
+					default:
+						undecided = append(undecided, "table "+tv.Name()+" is used in "+types.ExprString(be)+" ("+funcName(fi.Decl)+") and neither its index nor the compared value is the context's GOOS")
+					}
+				}
+			}
+			return true
+		})
+		// v := table[ctx.GOOS] idiom and any other use
+		ast.Inspect(fi.Decl.Body, func(n ast.Node) bool {
+			ix, ok := n.(*ast.IndexExpr)
+			if !ok || handled[ix] {
+				return true
+			}
+			tv, idx := tableOf(ix)
+			if tv == nil {
+				return true
+			}
+			if isGOOS(idx) {
+				for k, v := range tables[tv] {
+					claimed[k+"=>"+v] = true
+				}
+			} else {
+				undecided = append(undecided, "table "+tv.Name()+" is indexed by "+types.ExprString(idx)+" in "+funcName(fi.Decl)+", which is not the context's GOOS")
+			}
+			return true
+		})
+	}
+	return
 }
